@@ -180,6 +180,23 @@ def o_region(src_greedy, src_tell, src_small, data, start, depth, idx, src_raw=N
             return ('ok', v, st.tell())
         except core.ConstructError as e:
             return ('err', type(e).__name__, None)
+    def crun(src):
+        # the parser compile() generates for the same nest (None when the nest is outside what the compiler takes)
+        if src not in _COMPILED:
+            try:
+                _COMPILED[src] = C.get(src).compile()
+            except Exception:
+                _COMPILED[src] = None
+        cc = _COMPILED[src]
+        if cc is None:
+            return None
+        st = io.BytesIO(data)
+        st.seek(start)
+        try:
+            v = cc.parse_stream(st)
+            return ('ok', v, st.tell())
+        except Exception as e:
+            return ('err', type(e).__name__, None)
     g = run(src_greedy)
     if exp is None:
         if g[0] == 'ok':
@@ -210,7 +227,22 @@ def o_region(src_greedy, src_tell, src_small, data, start, depth, idx, src_raw=N
                 v.offset1, v.offset2, v.length, absstart, absstart + len(inner))
         if v.data != inner or v.value != inner:
             return 'RawCopy inside the region reports data %r / value %r, the region holds %r' % (v.data, v.value, inner)
+    ct = crun(src_tell)
+    if ct is not None and (ct[0] != 'ok' or ct[1] != absstart or ct[2] != outer_end):
+        return 'compiled parser: Tell inside the region reported %r and the outer stream ended at %r; absolute offset is %d, contract says %d' % (ct[1], ct[2], absstart, outer_end)
+    if src_raw is not None:
+        cr = crun(src_raw)
+        if cr is not None:
+            if cr[0] != 'ok':
+                return 'compiled parser: RawCopy(GreedyBytes) inside the region raised %s' % cr[1]
+            v = cr[1]
+            if (v.offset1, v.offset2, v.length, bytes(v.data)) != (absstart, absstart + len(inner), len(inner), inner) or cr[2] != outer_end:
+                return 'compiled parser: RawCopy inside the region reports %d..%d data %r and ends at %d; the region is %d..%d holding %r, contract says %d' % (
+                    v.offset1, v.offset2, v.data, cr[2], absstart, absstart + len(inner), inner, outer_end)
     return None
+
+
+_COMPILED = {}
 
 
 def make_nest(seed, salt):
